@@ -151,7 +151,7 @@ class C19(Check):
         for k in range(n):
             if k in (9, 10, 11) and shard == 0:
                 # a stdlib opener as open_obj (its file object TRANSFORMS the data) on decoded content of several 64 KiB read chunks
-                yield {'objs': {'n': 601 + 3 * (k - 9), 'alpha': 'plain', 'maxstr': 200, 'pad': 0, 'long': 300, 'oseed': rng.randrange(1 << 30), 'fields': 4},
+                yield {'objs': {'n': 1501 + 3 * (k - 9), 'alpha': 'plain', 'maxstr': 200, 'pad': 0, 'long': 300, 'oseed': rng.randrange(1 << 30), 'fields': 4},
                        'compression': None, 'mode': 'open_obj'}
                 continue
             if k % 40 == 4:
@@ -307,7 +307,7 @@ class C19(Check):
                 import lzma
                 opener = [bz2.open, lzma.open, _gzip.open][(len(objs) // 3) % 3]
                 out.tags.append('open_obj-stdlib-codec')
-                if sum(len(repr(o)) for o in objs) > 3 * 65536:
+                if sum(len(repr(o)) for o in objs) > 2 * 65536:
                     out.tags.append('open_obj-stdlib-codec-over-several-read-chunks')
                 path = os.path.join(self._tmpdir(), 'o.bin')
                 if os.path.exists(path):
